@@ -10,7 +10,7 @@ from .common import hasheq, dunder_sweep, instance_state, finalize_conflict_guar
 SM = 'selector_map.SelectorMap'
 
 
-def field_aliases(prog, m, field):
+def field_aliases(prog, m, field, _depth=0):
   """(g, facts, is_alias(node, name), target) for method m wrt self.<field>.
 
   Levels: 0 = the expression denotes (part of) the field's live structure,
@@ -45,6 +45,16 @@ def field_aliases(prog, m, field):
       return 0
     if isinstance(e, ast.Call):
       fn = e.func
+      # a helper method of the same class: what it returns, seen from its own body (a path of tree nodes, a node, ...)
+      if isinstance(fn, ast.Attribute) and isinstance(fn.value, ast.Name) and fn.value.id == selfn and m.cls is not None \
+          and fn.attr in m.cls.methods and m.cls.methods[fn.attr] is not m and _depth < 2:
+        m2 = m.cls.methods[fn.attr]
+        lv2 = field_aliases(prog, m2, field, _depth + 1)[4]
+        rl = [lv2(r.value, frozenset()) for r in walk_local(m2.node) if isinstance(r, ast.Return) and r.value is not None
+              and not (isinstance(r.value, ast.Constant) and r.value.value is None)]
+        got = lmin(rl)
+        if got is not None:
+          return got
       if isinstance(fn, ast.Attribute):
         base = level(fn.value, seen)
         if fn.attr in ('copy', 'values', 'items'):
@@ -88,12 +98,12 @@ def field_aliases(prog, m, field):
         pass
     return level(ast.Name(id=name, ctx=ast.Load()), frozenset()) == 0
 
-  return g, facts, is_alias, target
+  return g, facts, is_alias, target, level
 
 
 def field_writes(prog, m, field):
   """CFG nodes of method m that mutate self.<field> (directly or via alias)."""
-  g, facts, is_alias, target = field_aliases(prog, m, field)
+  g, facts, is_alias, target, _lv = field_aliases(prog, m, field)
   out = []
   for n in g.live_nodes():
     a = n.ast
@@ -134,7 +144,7 @@ def run(ctx):
   nested = set()
   for name, m in sm.methods.items():
     for fld in fields:
-      g, facts, is_alias, target = field_aliases(prog, m, fld)
+      g, facts, is_alias, target, _lv = field_aliases(prog, m, fld)
       for n in g.live_nodes():
         if n.ast is None:
           continue
@@ -225,6 +235,14 @@ def run(ctx):
   via_api = [c for c in walk_local(ms.node) if isinstance(c, ast.Call) and prog.resolve_call(ms, c) in
              (sm.qual + '.matching_selectors', sm.qual + '.get_match', sm.qual + '.get_all_matches')]
   reads_tree = any(isinstance(n, ast.Attribute) and n.attr == '_selector_tree' for n in walk_local(ms.node))
+  if not reads_tree:
+    # ... or through a helper method of the class that walks the tree (not one of the matching APIs)
+    api = {'matching_selectors', 'get_match', 'get_all_matches'}
+    for c_ in walk_local(ms.node):
+      if isinstance(c_, ast.Call) and isinstance(c_.func, ast.Attribute) and u(c_.func.value) == ms.params[0] and c_.func.attr in sm.methods \
+          and c_.func.attr not in api:
+        if any(isinstance(n, ast.Attribute) and n.attr == '_selector_tree' for n in walk_local(sm.methods[c_.func.attr].node)):
+          reads_tree = True
   ctx.check(not via_api and reads_tree, 'C08.minimal', smc + '.minimal_selector',
             'the shortest unambiguous suffix is computed on the suffix tree (all stored names that end in a component are seen)',
             'minimal_selector counts its competitors through `%s`: that API gives an exactly stored name precedence, so for a stored one-component '
@@ -268,7 +286,7 @@ def run(ctx):
 
   # ---- C08.prune: a child link is removed from the tree only when the child is empty
   pm = sm.methods.get('pop')
-  g, facts, is_alias, target = field_aliases(prog, pm, [f_ for f_ in fields if f_ in nested][0] if nested else fields[0])
+  g, facts, is_alias, target, _lv = field_aliases(prog, pm, [f_ for f_ in fields if f_ in nested][0] if nested else fields[0])
   removals = 0
   for n in g.live_nodes():
     if n.ast is None or n.kind != 'stmt':
